@@ -309,8 +309,8 @@ theorem F8_relink_same_size_keeps_old :
     let A : Bytes := [1, 1, 1]
     let B : Bytes := [2, 2, 2]
     let ops : List Op := [.put A 3 ⟨[A], .eof⟩, .put B 3 ⟨[B], .eof⟩, .link nm A, .link nm B, .resolve nm]
-    (runOps idh false ops Disk.empty).2 = [.res .ok, .res .ok, .res .ok, .res .ok, .digest A] ∧
-    (runOps idh true ops Disk.empty).2 = [.res .ok, .res .ok, .res .ok, .res .ok, .digest B] := by decide
+    (runOps idh false false ops Disk.empty).2 = [.res .ok, .res .ok, .res .ok, .res .ok, .digest A] ∧
+    (runOps idh true false ops Disk.empty).2 = [.res .ok, .res .ok, .res .ok, .res .ok, .digest B] := by decide
 
 /-- non-vacuity of the hypotheses of the universally quantified theorems above: a good script, a proper
     crash cut with a torn write, a trusted shorter-garbage start -/
@@ -500,8 +500,8 @@ def noChunk : Op → Bool
   | .chunk .. => false
   | _ => true
 
-theorem stepOp_blobOK (hash : Bytes → Digest) (fixed : Bool) (k : Disk) (op : Op) (hn : noChunk op = true)
-    (h : BlobOK hash k) : BlobOK hash (stepOp hash fixed k op).1 := by
+theorem stepOp_blobOK (hash : Bytes → Digest) (fixed zc : Bool) (k : Disk) (op : Op) (hn : noChunk op = true)
+    (h : BlobOK hash k) : BlobOK hash (stepOp hash fixed zc k op).1 := by
   cases op with
   | put d size s => exact put_blobOK hash k d size s h
   | importB size s =>
@@ -525,18 +525,26 @@ theorem stepOp_blobOK (hash : Bytes → Digest) (fixed : Bool) (k : Disk) (op : 
     · exact h
   | get d => exact h
   | link name d =>
-    simp only [stepOp, link]
+    have hl : ∀ (fx : Bool), BlobOK hash (link hash fx k name d).1 := by
+      intro fx
+      simp only [link]
+      split
+      · exact h
+      · split
+        · exact h
+        · split
+          · split
+            · exact h
+            · split
+              · exact h
+              · exact h
+          · exact h
+    simp only [stepOp, linkZ]
     split
     · exact h
     · split
       · exact h
-      · split
-        · split
-          · exact h
-          · split
-            · exact h
-            · exact h
-        · exact h
+      · exact hl fixed
   | unlink name =>
     simp only [stepOp, unlink]
     split
@@ -557,8 +565,8 @@ theorem stepOp_blobOK (hash : Bytes → Digest) (fixed : Bool) (k : Disk) (op : 
     empty disk), after ANY sequence of Put / Import / Get / Link / Unlink / Resolve with arbitrary — faulty —
     sources (no crash; `Chunked` excluded: finding F10), every blob file is absent, empty, or hashes to its
     name …  -/
-theorem history_blobs_valid (hash : Bytes → Digest) (fixed : Bool) : ∀ (ops : List Op) (k : Disk),
-    (∀ op ∈ ops, noChunk op = true) → BlobOK hash k → BlobOK hash (runOps hash fixed ops k).1 := by
+theorem history_blobs_valid (hash : Bytes → Digest) (fixed zc : Bool) : ∀ (ops : List Op) (k : Disk),
+    (∀ op ∈ ops, noChunk op = true) → BlobOK hash k → BlobOK hash (runOps hash fixed zc ops k).1 := by
   intro ops
   induction ops with
   | nil => intro k _ h; exact h
@@ -566,16 +574,16 @@ theorem history_blobs_valid (hash : Bytes → Digest) (fixed : Bool) : ∀ (ops 
     intro k hn h
     simp only [runOps]
     exact ih _ (fun o ho => hn o (List.mem_cons_of_mem _ ho))
-      (stepOp_blobOK hash fixed k op (hn op (List.mem_cons_self)) h)
+      (stepOp_blobOK hash fixed zc k op (hn op (List.mem_cons_self)) h)
 
 /-- … hence whatever `Get` reports present — under ANY size — has the right content. -/
-theorem history_get_trusted (hash : Bytes → Digest) (fixed : Bool) (ops : List Op)
+theorem history_get_trusted (hash : Bytes → Digest) (fixed zc : Bool) (ops : List Op)
     (hn : ∀ op ∈ ops, noChunk op = true) (d : Digest) (n : Nat)
-    (hg : getB (runOps hash fixed ops Disk.empty).1 d = .entry n) :
-    ∃ f, (runOps hash fixed ops Disk.empty).1.blob d = some f ∧ f.length = n ∧ hash f = d := by
-  have hok := history_blobs_valid hash fixed ops Disk.empty hn (by intro d f hf; cases hf)
+    (hg : getB (runOps hash fixed zc ops Disk.empty).1 d = .entry n) :
+    ∃ f, (runOps hash fixed zc ops Disk.empty).1.blob d = some f ∧ f.length = n ∧ hash f = d := by
+  have hok := history_blobs_valid hash fixed zc ops Disk.empty hn (by intro d f hf; cases hf)
   unfold getB at hg
-  cases hb : (runOps hash fixed ops Disk.empty).1.blob d with
+  cases hb : (runOps hash fixed zc ops Disk.empty).1.blob d with
   | none => simp [hb] at hg
   | some f =>
     simp only [hb] at hg
@@ -587,5 +595,167 @@ theorem history_get_trusted (hash : Bytes → Digest) (fixed : Bool) (ops : List
       rcases hok d f hb with rfl | h
       · simp at hz
       · exact h
+
+/-! ## Link with the zero-length refusal (proposed_fixes/C08-F8-zero.patch) -/
+
+theorem linkZ_eq_link (hash : Bytes → Digest) (zc fixed : Bool) (k : Disk) (name : Bytes) (d : Digest)
+    (h : ¬ (zc = true ∧ k.blob d = some [] ∧ d ≠ hash [])) :
+    linkZ hash zc fixed k name d = link hash fixed k name d := by
+  unfold linkZ
+  cases hp : nameToPath name with
+  | none => simp [link, hp]
+  | some w => simp only [h, if_false]
+
+/-- Link-then-Resolve for the repaired `Link`, with or without the zero-length refusal: no guard -/
+theorem linkZ_then_resolve_fixed (hash : Bytes → Digest) (zc : Bool) (k : Disk) (name : Bytes) (d : Digest)
+    (f : Bytes) (want : MPath)
+    (hat : splitNameDigest name = (name, []))
+    (hp : nameToPath name = some want)
+    (hb : k.blob d = some f) (hh : hash f = d) :
+    (linkZ hash zc true k name d).2 = .ok ∧
+    (resolve hash (linkZ hash zc true k name d).1 name).2 = .digest d := by
+  have hno : ¬ (zc = true ∧ k.blob d = some [] ∧ d ≠ hash []) := by
+    rintro ⟨_, he, hne⟩
+    rw [hb] at he
+    cases he
+    exact hne hh.symm
+  rw [linkZ_eq_link hash zc true k name d hno]
+  exact link_then_resolve_fixed hash k name d f want hat hp hb hh
+
+/-- a successful `linkZ` went through `link` -/
+theorem linkZ_ok (hash : Bytes → Digest) (zc fixed : Bool) (k : Disk) (name : Bytes) (d : Digest)
+    (hok : (linkZ hash zc fixed k name d).2 = .ok) :
+    ¬ (zc = true ∧ k.blob d = some [] ∧ d ≠ hash []) ∧ (link hash fixed k name d).2 = .ok := by
+  by_cases h : zc = true ∧ k.blob d = some [] ∧ d ≠ hash []
+  · unfold linkZ at hok
+    cases hp : nameToPath name with
+    | none => simp [hp] at hok
+    | some w => simp [hp, h] at hok
+  · rw [linkZ_eq_link hash zc fixed k name d h] at hok
+    exact ⟨h, hok⟩
+
+/-- **Link requires the blob, full strength, for `Link` with both repairs**: if it answers ok, the blob file
+    exists and its bytes hash to `d` (so `Get` reports it present unless `d` is the digest of the empty string),
+    or the name already holds a manifest hashing to `d`.  This closes finding F8-zero. -/
+theorem link_requires_blob_zero_checked (hash : Bytes → Digest) (k : Disk) (name : Bytes) (d : Digest)
+    (hok : (linkZ hash true true k name d).2 = .ok) :
+    ∃ f, k.blob d = some f ∧
+      (hash f = d ∨
+        ∃ want g, nameToPath name = some want ∧ manGet k.mans (manifestPathOf k.mans want) = some g ∧ hash g = d) := by
+  obtain ⟨hno, hl⟩ := linkZ_ok hash true true k name d hok
+  obtain ⟨f, hb, h⟩ := link_requires_blob_fixed hash k name d hl
+  refine ⟨f, hb, ?_⟩
+  rcases h with rfl | h | h
+  · left
+    by_cases hd : d = hash []
+    · exact hd.symm
+    · exact absurd ⟨rfl, hb, hd⟩ hno
+  · exact Or.inl h
+  · exact Or.inr h
+
+/-- the F8-zero history with the zero-length refusal: the Link is refused -/
+theorem F8zero_refused_with_zero_check :
+    let d : Digest := [1, 2, 3]
+    let k1 := (put idh Disk.empty d 3 ⟨[[1]], .eof⟩).1
+    (linkZ idh true true k1 nm d).2 = .notExist ∧ (linkZ idh false true k1 nm d).2 = .ok := by decide
+
+/-! ## name operations are confined to manifests/ -/
+
+/-- **Frame of the name operations.**  `Link` and `Unlink` (any variant, any string as name — hostile ones
+    included) leave every blob untouched, and keep every manifest at a path of exactly four safe components
+    (`SafePath`: non-empty, not starting with `.`, no `/`), i.e. strictly inside `manifests/`.  The model keeps
+    blobs and manifests in two maps; THIS theorem is what justifies that split: a name can never denote a
+    file outside `manifests/<h>/<n>/<m>/<t>`. -/
+theorem link_confined (hash : Bytes → Digest) (zc fixed : Bool) (k : Disk) (name : Bytes) (d : Digest)
+    (hm : AllSafe k.mans) :
+    (linkZ hash zc fixed k name d).1.blob = k.blob ∧ AllSafe (linkZ hash zc fixed k name d).1.mans := by
+  have hl : (link hash fixed k name d).1.blob = k.blob ∧ AllSafe (link hash fixed k name d).1.mans := by
+    unfold link
+    cases hp : nameToPath name with
+    | none => exact ⟨rfl, hm⟩
+    | some want =>
+      have hs := manifestPathOf_safe k.mans want hm (nameToPath_safe name want hp)
+      simp only
+      cases hb : k.blob d with
+      | none => exact ⟨rfl, hm⟩
+      | some f =>
+        simp only
+        split
+        · split
+          · exact ⟨rfl, hm⟩
+          · split
+            · exact ⟨rfl, manSet_safe _ _ _ hm hs⟩
+            · exact ⟨rfl, hm⟩
+        · exact ⟨rfl, manSet_safe _ _ _ hm hs⟩
+  unfold linkZ
+  split
+  · exact ⟨rfl, hm⟩
+  · split
+    · exact ⟨rfl, hm⟩
+    · exact hl
+
+theorem unlink_confined (k : Disk) (name : Bytes) (hm : AllSafe k.mans) :
+    (unlink k name).1.blob = k.blob ∧ AllSafe (unlink k name).1.mans := by
+  unfold unlink
+  cases hp : nameToPath name with
+  | none => exact ⟨rfl, hm⟩
+  | some want =>
+    have hs := manifestPathOf_safe k.mans want hm (nameToPath_safe name want hp)
+    simp only
+    split
+    · exact ⟨rfl, hm⟩
+    · exact ⟨rfl, manSet_safe k.mans _ none hm hs⟩
+
+/-- over every history (all ops, all names) from the empty disk, every manifest sits at a safe path -/
+theorem history_manifests_confined (hash : Bytes → Digest) (fixed zc : Bool) : ∀ (ops : List Op) (k : Disk),
+    AllSafe k.mans → AllSafe (runOps hash fixed zc ops k).1.mans := by
+  intro ops
+  induction ops with
+  | nil => intro k h; exact h
+  | cons op ops ih =>
+    intro k h
+    simp only [runOps]
+    apply ih
+    cases op with
+    | put d size s => exact h
+    | importB size s =>
+      simp only [stepOp, importB]
+      split <;> exact h
+    | get d => exact h
+    | link name d => exact (link_confined hash zc fixed k name d h).2
+    | unlink name => exact (unlink_confined k name h).2
+    | resolve name =>
+      simp only [stepOp, resolve]
+      split
+      · split <;> exact h
+      · split
+        · exact h
+        · split
+          · exact h
+          · split <;> exact h
+    | chunk d size a b cd s => exact h
+
+/-! ## crash – restart – retry histories of one blob file -/
+
+/-- states of one blob file reachable by any number of `Put`s (arbitrary scripts) and `Import`s of content
+    hashing to `d`, EACH of which may be cut by a crash at any point (a complete run is a cut too), every `Put`
+    under the size `size` -/
+inductive CrashReach (hash : Bytes → Digest) (d : Digest) (size : Nat) : FileSt → FileSt → Prop
+  | refl (st) : CrashReach hash d size st st
+  | put (st st' : FileSt) (s : Script) (p : List Eff) :
+      CrashReach hash d size st st' → Cut (copyNamedEffs hash st' d size s).1 p →
+      CrashReach hash d size st (run p st')
+  | imp (st st' : FileSt) (n : Nat) (s : Script) (es p : List Eff) :
+      CrashReach hash d size st st' → (importEffs hash n s).1 = some (d, es) → Cut es p →
+      CrashReach hash d size st (run p st')
+
+/-- **Crash histories.**  Any sequence of possibly-crashed writes of `d` keeps the file trusted: what a crash
+    leaves is a legitimate start for the retry, for any number of rounds. -/
+theorem crash_history_trusted (hash : Bytes → Digest) (d : Digest) (size : Nat) (st st' : FileSt)
+    (hr : CrashReach hash d size st st') (h0 : Trusted hash st d size) : Trusted hash st' d size := by
+  induction hr with
+  | refl => exact h0
+  | put st' s p _ hc ih => exact single_writer_crash_safe hash d size s st' ih p hc
+  | imp st' n s es p _ hi hc ih => exact import_crash_safe hash n s st' d es hi p hc size ih
 
 end OllamaVerif.C08
